@@ -95,6 +95,7 @@ theorem noStart_schedule (s : State) (hu : JobsUnique s) (b j a i : Nat) : NoSta
   split
   · exact noStart_of_jobs_eq hu rfl
   · rename_i job hj
+    replace hj := findJobFk_some hj
     split_ifs with hg
     · refine noStart_updateJobs s _ (by simp) hu _ _ (jobFrame_setStateAttempt _ _) ?_
       intro x hx hp hc _
@@ -109,6 +110,7 @@ theorem noStart_startLike (s : State) (hu : JobsUnique s) (b j a i : Nat) (ts : 
   split
   · exact noStart_of_jobs_eq hu rfl
   · rename_i job hj
+    replace hj := findJobFk_some hj
     split_ifs with hg
     · refine noStart_updateJobs s _ (by simp) hu _ _ (jobFrame_setStateAttempt _ _) ?_
       intro x hx hp hc _
